@@ -371,7 +371,35 @@ type c02Node struct {
 	// blocks
 	open, els, close string
 	body, body2      []*c02Node
-	mode             string // once | twice | else | none
+	mode             string // once | twice | else | none | cond | loop
+	// control flow inside loops
+	flow        int    // leaf: c02Break / c02Continue (executed when the condition, if any, holds)
+	cvar, cval  string // condition "cvar == cval" on a loop variable (leaf with flow, or block of mode cond); cval is the rendered value
+	cneg        bool   // condition is "!="
+	transparent bool   // an if-block: break/continue inside it act on the enclosing loop
+	silent      bool   // loop written as a code tag: contributes nothing
+	lkey, lval  string // loop: names of the key and value variables ("" = not bound / not visible to the body)
+	lkeys       []string
+	lvals       []string // loop: rendered key and value of each iteration, in order
+}
+
+const (
+	c02Break    = 1
+	c02Continue = 2
+)
+
+// c02LoopVar is a loop variable in scope: its name and its rendered value per iteration.
+type c02LoopVar struct {
+	name string
+	vals []string
+	str  bool
+}
+
+// c02LC is the loop context of a list being generated: the loop variables that conditions may test and
+// whether break/continue written here act on a loop (directly in a loop body or inside if-blocks of it).
+type c02LC struct {
+	lvs     []c02LoopVar
+	canFlow bool
 }
 
 type c02Var struct{ name, val string }
@@ -570,56 +598,259 @@ func (g *c02Gen) commentNode() *c02Node {
 	return &c02Node{feat: "comment", src: "<%#" + body + "%>"}
 }
 
-func (g *c02Gen) blockNode(depth int, vars []c02Var, _ bool) *c02Node {
-	sp := func(s string) string { // layout variation of the tag delimiters
-		if g.r.Chance(25) {
-			return strings.NewReplacer("<%= ", "<%=", "<% ", "<%", " %>", "%>").Replace(s)
-		}
-		return s
+// c02Seq is an application-defined Iterator (not one of plush's own).
+type c02Seq struct {
+	items []interface{}
+	pos   int
+}
+
+func (q *c02Seq) Next() interface{} {
+	if q.pos >= len(q.items) {
+		return nil
 	}
-	inner := func() []*c02Node {
-		vs := append([]c02Var{}, vars...)
-		return g.list(g.r.Range(0, 4), depth+1, vs, len(vs), true)
+	q.pos++
+	return q.items[q.pos-1]
+}
+
+type c02Iterable struct {
+	feat, src  string
+	keys, vals []string
+	strK, strV bool
+	blind      bool // several iterations in an order the language does not fix: the body must not look at key or value
+}
+
+func c02Idx(n int) []string {
+	ks := make([]string, n)
+	for i := range ks {
+		ks[i] = strconv.Itoa(i)
 	}
-	n := &c02Node{body: inner()}
-	switch k := g.r.Intn(13); k {
+	return ks
+}
+
+func c02Ints(from, n int) []string {
+	vs := make([]string, 0, n)
+	for i := 0; i < n; i++ {
+		vs = append(vs, strconv.Itoa(from+i))
+	}
+	return vs
+}
+
+// iterable picks what a for loop runs over: array literals, Go slices/arrays/pointers from the context, the
+// iterator helpers range/between/until, application-defined Iterators, hash literals and Go maps.
+func (g *c02Gen) iterable() c02Iterable {
+	words := []string{"p", "q<", "&r"}
+	switch k := g.r.Intn(16); k {
 	case 0, 1:
-		n.feat, n.mode, n.open, n.close = "ifT", "once", sp("<%= if (true) { %>"), sp("<% } %>")
+		n := g.r.Intn(4)
+		vs := c02Ints(Pick(g.r, []int{1, 1, 5}), n)
+		return c02Iterable{feat: "arrlit", src: "[" + strings.Join(vs, ", ") + "]", keys: c02Idx(n), vals: vs}
 	case 2:
-		n.feat, n.mode, n.open, n.els, n.close = "ifElse", "else", sp("<%= if (false) { %>"), sp("<% } else { %>"), sp("<% } %>")
-		n.body2 = inner()
+		n := g.r.Range(1, 3)
+		var q []string
+		for _, w := range words[:n] {
+			q = append(q, `"`+w+`"`)
+		}
+		return c02Iterable{feat: "arrlit-str", src: "[" + strings.Join(q, ", ") + "]", keys: c02Idx(n), vals: words[:n], strV: true}
 	case 3:
-		n.feat, n.mode, n.open, n.close = "ifF", "none", sp("<%= if (1 == 2) { %>"), sp("<% } %>")
+		if g.r.Chance(20) {
+			return c02Iterable{feat: "goslice-empty", src: "none"}
+		}
+		return c02Iterable{feat: "goslice", src: "xs", keys: c02Idx(3), vals: c02Ints(1, 3)}
 	case 4:
-		n.feat, n.mode, n.open, n.close = "for", "twice", sp("<%= for ("+g.fresh("i")+") in [1, 2] { %>"), sp("<% } %>")
+		return c02Iterable{feat: "goslice-str", src: "ss", keys: c02Idx(2), vals: []string{"p", "q<"}, strV: true}
 	case 5:
-		f := g.fresh("f")
-		n.feat, n.mode, n.open, n.close = "fn", "once", sp("<% let "+f+" = fn() { %>"), sp("<% } %><%= "+f+"() %>")
+		return c02Iterable{feat: "goarray", src: "arr", keys: c02Idx(2), vals: []string{"m", "n"}, strV: true}
 	case 6:
-		f := g.fresh("f")
-		n.feat, n.mode, n.open, n.close = "fn2", "twice", sp("<% let "+f+" = fn() { %>"), sp("<% } %><%= "+f+"() %><%= "+f+"() %>")
-	case 7:
-		n.feat, n.mode, n.open, n.close = "blk", "once", sp("<%= blk() { %>"), sp("<% } %>")
-	case 8:
-		n.feat, n.mode, n.open, n.close = "silent-if", "none", sp("<% if (true) { %>"), sp("<% } %>")
+		return c02Iterable{feat: "ptrslice", src: "pxs", keys: c02Idx(2), vals: c02Ints(4, 2)}
+	case 7, 8:
+		a, n := g.r.Range(1, 4), g.r.Intn(4) // from 1: no negative bound (a sign in an argument is not this property's business)
+		return c02Iterable{feat: "range", src: fmt.Sprintf("range(%d, %d)", a, a+n-1), keys: c02Idx(n), vals: c02Ints(a, n)}
 	case 9:
-		n.feat, n.mode, n.open, n.close = "silent-for", "none", sp("<% for ("+g.fresh("i")+") in [1, 2] { %>"), sp("<% } %>")
+		a, n := g.r.Intn(4), g.r.Intn(4)
+		return c02Iterable{feat: "between", src: fmt.Sprintf("between(%d, %d)", a, a+n+1), keys: c02Idx(n), vals: c02Ints(a+1, n)}
 	case 10:
-		f := g.fresh("f")
-		n.feat, n.mode, n.open, n.close = "silent-fncall", "none", sp("<% let "+f+" = fn() { %>"), sp("<% } %><% "+f+"() %>")
+		n := g.r.Intn(4)
+		return c02Iterable{feat: "until", src: fmt.Sprintf("until(%d)", n), keys: c02Idx(n), vals: c02Ints(0, n)}
 	case 11:
-		n.feat, n.mode, n.open, n.close = "silent-blk", "none", sp("<% blk() { %>"), sp("<% } %>")
+		n := g.r.Intn(4)
+		return c02Iterable{feat: "iter", src: fmt.Sprintf("seq(%d)", n), keys: c02Idx(n), vals: c02Ints(1, n)}
+	case 12:
+		return c02Iterable{feat: "iter-str", src: "wordseq()", keys: c02Idx(3), vals: words, strV: true}
+	case 13:
+		if g.r.Bool() {
+			return c02Iterable{feat: "hash1", src: `{a: 1}`, keys: []string{"a"}, vals: []string{"1"}, strK: true}
+		}
+		return c02Iterable{feat: "hash1", src: `{"k": "x<"}`, keys: []string{"k"}, vals: []string{"x<"}, strK: true, strV: true}
+	case 14:
+		return c02Iterable{feat: "gomap1", src: "m1", keys: []string{"k"}, vals: []string{"9"}, strK: true}
 	default:
-		n.feat, n.mode, n.open, n.els, n.close = "ifElseIf", "else", sp("<%= if (false) { %>"), sp("<% } else if (true) { %>"), sp("<% } %>")
-		n.body2 = inner()
+		return c02Iterable{feat: "gomapN", src: "m3", keys: []string{"", "", ""}, vals: []string{"", "", ""}, blind: true}
+	}
+}
+
+// condOn picks a loop variable in scope and a value to compare it with (mostly one it takes).
+func (g *c02Gen) condOn(lc c02LC) (lv c02LoopVar, cval, src string, neg bool) {
+	lv = Pick(g.r, lc.lvs)
+	if len(lv.vals) > 0 && !g.r.Chance(15) {
+		cval = Pick(g.r, lv.vals)
+	} else if lv.str {
+		cval = "zz"
+	} else {
+		cval = "77"
+	}
+	lit := cval
+	if lv.str {
+		lit = `"` + cval + `"`
+	}
+	op := "=="
+	if g.r.Chance(30) {
+		op, neg = "!=", true
+	}
+	return lv, cval, lv.name + " " + op + " " + lit, neg
+}
+
+// flowNode: break / continue, bare or as the only statement of a silent inline if on a loop variable.
+func (g *c02Gen) flowNode(lc c02LC) *c02Node {
+	a, b := g.pad()
+	kw, fl := "break", c02Break
+	if g.r.Chance(40) {
+		kw, fl = "continue", c02Continue
+	}
+	if len(lc.lvs) > 0 && g.r.Chance(35) {
+		lv, cval, cond, neg := g.condOn(lc)
+		return &c02Node{feat: "if-" + kw, src: "<%" + a + "if (" + cond + ") { " + kw + " }" + b + "%>", flow: fl, cvar: lv.name, use: lv.name, cval: cval, cneg: neg}
+	}
+	return &c02Node{feat: kw, src: "<%" + a + kw + b + "%>", flow: fl}
+}
+
+func (g *c02Gen) sp(s string) string { // layout variation of the tag delimiters
+	if g.r.Chance(25) {
+		return strings.NewReplacer("<%= ", "<%=", "<% ", "<%", " %>", "%>").Replace(s)
+	}
+	return s
+}
+
+func (g *c02Gen) inner(depth int, vars []c02Var, lc c02LC, lo, hi int) []*c02Node {
+	vs := append([]c02Var{}, vars...)
+	return g.list(g.r.Range(lo, hi), depth+1, vs, len(vs), lc)
+}
+
+// condNode: an if-block (output form) whose condition tests a loop variable, with or without else.
+func (g *c02Gen) condNode(depth int, vars []c02Var, lc c02LC) *c02Node {
+	lv, cval, cond, neg := g.condOn(lc)
+	n := &c02Node{cvar: lv.name, use: lv.name, cval: cval, cneg: neg}
+	switch k := g.r.Intn(10); {
+	case k < 5:
+		n.feat, n.mode, n.transparent, n.open, n.close = "cond", "cond", true, g.sp("<%= if ("+cond+") { %>"), g.sp("<% } %>")
+		n.body = g.inner(depth, vars, lc, 0, 4)
+	case k < 9:
+		n.feat, n.mode, n.transparent, n.open, n.els, n.close = "condElse", "cond", true, g.sp("<%= if ("+cond+") { %>"), g.sp("<% } else { %>"), g.sp("<% } %>")
+		n.body = g.inner(depth, vars, lc, 0, 4)
+		n.body2 = g.inner(depth, vars, lc, 0, 4)
+	default:
+		// the code-tag form contributes nothing; break/continue are not put inside it (see Notes)
+		n.feat, n.mode, n.open, n.close = "silent-cond", "none", g.sp("<% if ("+cond+") { %>"), g.sp("<% } %>")
+		n.body = g.inner(depth, vars, c02LC{lvs: lc.lvs}, 0, 4)
 	}
 	return n
 }
 
-func (g *c02Gen) list(n, depth int, vars []c02Var, own int, inBlock bool) []*c02Node {
+// loopNode: a for loop (output or code-tag form) over one of the iterables, binding value or key and value.
+func (g *c02Gen) loopNode(depth int, vars []c02Var, lc c02LC, silent bool) *c02Node {
+	it := g.iterable()
+	n := &c02Node{mode: "loop", silent: silent, lkeys: it.keys, lvals: it.vals}
+	vn := g.fresh("i")
+	head := vn
+	vs := append([]c02Var{}, vars...)
+	sub := c02LC{lvs: append([]c02LoopVar{}, lc.lvs...), canFlow: true}
+	if g.r.Chance(40) {
+		kn := g.fresh("k")
+		head = kn + ", " + vn
+		if !it.blind {
+			n.lkey = kn
+			vs = append(vs, c02Var{name: kn})
+			sub.lvs = append(sub.lvs, c02LoopVar{kn, it.keys, it.strK})
+		}
+	}
+	if !it.blind {
+		n.lval = vn
+		vs = append(vs, c02Var{name: vn})
+		sub.lvs = append(sub.lvs, c02LoopVar{vn, it.vals, it.strV})
+	}
+	tag := "<%= "
+	n.feat = "for-" + it.feat
+	if silent {
+		tag, n.feat = "<% ", "silent-for-"+it.feat
+	}
+	n.open, n.close = g.sp(tag+"for ("+head+") in "+it.src+" { %>"), g.sp("<% } %>")
+	n.body = g.list(g.r.Range(1, 5), depth+1, vs, len(vs), sub)
+	return n
+}
+
+func (g *c02Gen) blockNode(depth int, vars []c02Var, lc c02LC) *c02Node {
+	sp := g.sp
+	opaque := c02LC{lvs: lc.lvs} // break/continue do not reach through functions, helpers and code-tag blocks
+	inner := func(sub c02LC) []*c02Node { return g.inner(depth, vars, sub, 0, 4) }
+	n := &c02Node{}
+	switch k := g.r.Intn(18); k {
+	case 0, 1:
+		n.feat, n.mode, n.transparent, n.open, n.close = "ifT", "once", true, sp("<%= if (true) { %>"), sp("<% } %>")
+		n.body = inner(lc)
+	case 2:
+		n.feat, n.mode, n.transparent, n.open, n.els, n.close = "ifElse", "else", true, sp("<%= if (false) { %>"), sp("<% } else { %>"), sp("<% } %>")
+		n.body = inner(lc)
+		n.body2 = inner(lc)
+	case 3:
+		n.feat, n.mode, n.transparent, n.open, n.close = "ifF", "none", true, sp("<%= if (1 == 2) { %>"), sp("<% } %>")
+		n.body = inner(lc)
+	case 4, 13, 14, 15, 16:
+		return g.loopNode(depth, vars, lc, false)
+	case 5:
+		f := g.fresh("f")
+		n.feat, n.mode, n.open, n.close = "fn", "once", sp("<% let "+f+" = fn() { %>"), sp("<% } %><%= "+f+"() %>")
+		n.body = inner(opaque)
+	case 6:
+		f := g.fresh("f")
+		n.feat, n.mode, n.open, n.close = "fn2", "twice", sp("<% let "+f+" = fn() { %>"), sp("<% } %><%= "+f+"() %><%= "+f+"() %>")
+		n.body = inner(opaque)
+	case 7:
+		n.feat, n.mode, n.open, n.close = "blk", "once", sp("<%= blk() { %>"), sp("<% } %>")
+		n.body = inner(opaque)
+	case 8:
+		n.feat, n.mode, n.open, n.close = "silent-if", "none", sp("<% if (true) { %>"), sp("<% } %>")
+		n.body = inner(opaque)
+	case 9, 17:
+		return g.loopNode(depth, vars, lc, true)
+	case 10:
+		f := g.fresh("f")
+		n.feat, n.mode, n.open, n.close = "silent-fncall", "none", sp("<% let "+f+" = fn() { %>"), sp("<% } %><% "+f+"() %>")
+		n.body = inner(opaque)
+	case 11:
+		n.feat, n.mode, n.open, n.close = "silent-blk", "none", sp("<% blk() { %>"), sp("<% } %>")
+		n.body = inner(opaque)
+	default:
+		n.feat, n.mode, n.transparent, n.open, n.els, n.close = "ifElseIf", "else", true, sp("<%= if (false) { %>"), sp("<% } else if (true) { %>"), sp("<% } %>")
+		n.body = inner(lc)
+		n.body2 = inner(lc)
+	}
+	return n
+}
+
+func (g *c02Gen) list(n, depth int, vars []c02Var, own int, lc c02LC) []*c02Node {
 	var out []*c02Node
 	lastText := false
 	for i := 0; i < n; i++ {
+		if lc.canFlow && g.r.Chance(12) {
+			out = append(out, g.flowNode(lc))
+			lastText = false
+			continue
+		}
+		if len(lc.lvs) > 0 && depth <= g.maxD && g.r.Chance(12) {
+			// one level deeper than other blocks, so that "text, then break, inside an if inside a loop" fits the quick depth
+			out = append(out, g.condNode(depth, vars, lc))
+			lastText = false
+			continue
+		}
 		k := g.r.Intn(100)
 		switch {
 		case k < 30 && !lastText:
@@ -633,7 +864,7 @@ func (g *c02Gen) list(n, depth int, vars []c02Var, own int, inBlock bool) []*c02
 		case k < 80:
 			out = append(out, g.commentNode())
 		case depth < g.maxD:
-			out = append(out, g.blockNode(depth, vars, inBlock))
+			out = append(out, g.blockNode(depth, vars, lc))
 		default:
 			out = append(out, g.outNode(vars))
 		}
@@ -646,12 +877,20 @@ func (g *c02Gen) list(n, depth int, vars []c02Var, own int, inBlock bool) []*c02
 // reference decodes them; ok=false when a text would change the meaning of what follows it (a text ending
 // in a lone backslash in front of a tag, or containing a live tag opener).
 func c02Eval(ns []*c02Node, inBlock bool) (tmpl, want string, ok bool) {
-	return c02EvalIn(ns, inBlock, map[string]string{})
+	tmpl, want, ok, _ = c02EvalIn(ns, inBlock, map[string]string{}, false)
+	return
+}
+
+func c02CondHolds(n *c02Node, defined map[string]string) bool {
+	return (defined[n.cvar] == n.cval) != n.cneg
 }
 
 // The values of variables are followed here (not frozen at generation time) so that shrinking may drop or
-// shorten a let or an assignment and the expected output stays right.
-func c02EvalIn(ns []*c02Node, inBlock bool, outer map[string]string) (tmpl, want string, ok bool) {
+// shorten a let or an assignment and the expected output stays right. Loop bodies are evaluated once per
+// iteration with the loop variables bound; flow reports a break/continue that was executed in this list
+// (what follows it in the list is printed to the template but contributes nothing). A break/continue
+// where no loop can be reached (inLoop false) makes the program invalid.
+func c02EvalIn(ns []*c02Node, inBlock bool, outer map[string]string, inLoop bool) (tmpl, want string, ok bool, flow int) {
 	defined := map[string]string{}
 	for k, v := range outer {
 		defined[k] = v
@@ -659,6 +898,12 @@ func c02EvalIn(ns []*c02Node, inBlock bool, outer map[string]string) (tmpl, want
 	var tb, wb strings.Builder
 	pending := ""
 	ok = true
+	dead := false
+	emit := func(s string) {
+		if !dead {
+			wb.WriteString(s)
+		}
+	}
 	flush := func(followed bool) {
 		if pending == "" {
 			return
@@ -672,8 +917,20 @@ func c02EvalIn(ns []*c02Node, inBlock bool, outer map[string]string) (tmpl, want
 			ok = false
 		}
 		tb.WriteString(pending)
-		wb.WriteString(out)
+		emit(out)
 		pending = ""
+	}
+	sub := func(body []*c02Node, d map[string]string, loop bool) (string, string, int) {
+		t, w, bok, fl := c02EvalIn(body, true, d, loop)
+		if !bok {
+			ok = false
+		}
+		return t, w, fl
+	}
+	exit := func(fl int) {
+		if fl != 0 && !dead {
+			flow, dead = fl, true
+		}
 	}
 	for _, n := range ns {
 		if n.text {
@@ -694,35 +951,94 @@ func c02EvalIn(ns []*c02Node, inBlock bool, outer map[string]string) (tmpl, want
 		}
 		if n.mode == "" {
 			tb.WriteString(n.src)
-			if n.reads {
-				wb.WriteString(template.HTMLEscapeString(defined[n.use]))
-			} else {
-				wb.WriteString(n.want)
+			switch {
+			case n.flow != 0:
+				if !inLoop {
+					ok = false
+				}
+				if n.cvar == "" || c02CondHolds(n, defined) {
+					exit(n.flow)
+				}
+			case n.reads:
+				emit(template.HTMLEscapeString(defined[n.use]))
+			default:
+				emit(n.want)
 			}
 			continue
 		}
-		bt, bw, bok := c02EvalIn(n.body, true, defined)
-		if !bok {
-			ok = false
-		}
-		tb.WriteString(n.open + bt)
+		pass := inLoop && n.transparent
 		switch n.mode {
-		case "once":
-			wb.WriteString(bw)
-		case "twice":
-			wb.WriteString(bw + bw)
-		case "else":
-			b2t, b2w, b2ok := c02EvalIn(n.body2, true, defined)
-			if !b2ok {
-				ok = false
+		case "once", "twice", "none":
+			bt, bw, fl := sub(n.body, defined, pass)
+			tb.WriteString(n.open + bt + n.close)
+			if n.mode != "none" {
+				emit(bw)
+				if n.mode == "twice" {
+					emit(bw)
+				}
+				if pass {
+					exit(fl)
+				}
 			}
-			tb.WriteString(n.els + b2t)
-			wb.WriteString(b2w)
+		case "else":
+			bt, _, _ := sub(n.body, defined, pass)
+			b2t, b2w, fl := sub(n.body2, defined, pass)
+			tb.WriteString(n.open + bt + n.els + b2t + n.close)
+			emit(b2w)
+			if pass {
+				exit(fl)
+			}
+		case "cond":
+			bt, bw, fl := sub(n.body, defined, pass)
+			tb.WriteString(n.open + bt)
+			if n.els != "" {
+				b2t, b2w, fl2 := sub(n.body2, defined, pass)
+				tb.WriteString(n.els + b2t)
+				if !c02CondHolds(n, defined) {
+					bw, fl = b2w, fl2
+				}
+			} else if !c02CondHolds(n, defined) {
+				bw, fl = "", 0
+			}
+			tb.WriteString(n.close)
+			emit(bw)
+			if pass {
+				exit(fl)
+			}
+		case "loop":
+			bodyT := ""
+			for j := 0; j < len(n.lvals) || j == 0; j++ {
+				d := map[string]string{}
+				for k, v := range defined {
+					d[k] = v
+				}
+				kv, vv := "", ""
+				if j < len(n.lvals) {
+					kv, vv = n.lkeys[j], n.lvals[j]
+				}
+				if n.lkey != "" {
+					d[n.lkey] = kv
+				}
+				if n.lval != "" {
+					d[n.lval] = vv
+				}
+				bt, bw, fl := sub(n.body, d, true)
+				bodyT = bt
+				if j >= len(n.lvals) {
+					break
+				}
+				if !n.silent {
+					emit(bw)
+				}
+				if fl == c02Break {
+					break
+				}
+			}
+			tb.WriteString(n.open + bodyT + n.close)
 		}
-		tb.WriteString(n.close)
 	}
 	flush(inBlock)
-	return tb.String(), wb.String(), ok
+	return tb.String(), wb.String(), ok, flow
 }
 
 func c02Ctx() *plush.Context {
@@ -733,6 +1049,22 @@ func c02Ctx() *plush.Context {
 	})
 	ctx.Set("id", func(s string) string { return s })
 	ctx.Set("hid", func(s string) template.HTML { return template.HTML(s) })
+	// things to loop over
+	ctx.Set("xs", []int{1, 2, 3})
+	ctx.Set("none", []int{})
+	ctx.Set("ss", []string{"p", "q<"})
+	ctx.Set("arr", [2]string{"m", "n"})
+	ctx.Set("pxs", &[]int{4, 5})
+	ctx.Set("m1", map[string]int{"k": 9})
+	ctx.Set("m3", map[string]int{"a": 1, "b": 2, "c": 3})
+	ctx.Set("seq", func(n int) plush.Iterator {
+		q := &c02Seq{}
+		for i := 1; i <= n; i++ {
+			q.items = append(q.items, i)
+		}
+		return q
+	})
+	ctx.Set("wordseq", func() plush.Iterator { return &c02Seq{items: []interface{}{"p", "q<", "&r"}} })
 	return ctx
 }
 
@@ -797,7 +1129,7 @@ func c02Sig(ns []*c02Node) string {
 			}
 		default:
 			s := n.feat + "{" + c02Sig(n.body) + "}"
-			if n.mode == "else" {
+			if n.mode == "else" || (n.mode == "cond" && n.els != "") {
 				s += "else{" + c02Sig(n.body2) + "}"
 			}
 			parts = append(parts, s)
@@ -833,7 +1165,7 @@ func c02ShrinkSeg(root []*c02Node, problem, shape string) []*c02Node {
 		for _, n := range *ns {
 			if n.mode != "" {
 				lists(&n.body, visit)
-				if n.mode == "else" {
+				if n.mode == "else" || (n.mode == "cond" && n.els != "") {
 					lists(&n.body2, visit)
 				}
 			}
@@ -915,7 +1247,7 @@ func c02ShrinkSeg(root []*c02Node, problem, shape string) []*c02Node {
 			for _, n := range *l {
 				if n.mode == "else" {
 					sv := *n
-					n.feat, n.mode, n.open, n.els, n.close = "ifT", "once", "<%= if (true) { %>", "", "<% } %>"
+					n.feat, n.mode, n.transparent, n.open, n.els, n.close = "ifT", "once", true, "<%= if (true) { %>", "", "<% } %>"
 					n.body, n.body2 = sv.body2, nil
 					if !same(root) {
 						*n = sv
@@ -926,7 +1258,7 @@ func c02ShrinkSeg(root []*c02Node, problem, shape string) []*c02Node {
 						continue
 					}
 					sv := *n
-					n.feat, n.mode, n.open, n.close = "ifT", "once", "<%= if (true) { %>", "<% } %>"
+					n.feat, n.mode, n.transparent, n.open, n.close = "ifT", "once", true, "<%= if (true) { %>", "<% } %>"
 					if !same(root) {
 						*n = sv
 					}
@@ -995,7 +1327,11 @@ func c02SegStream(cfg Config) *Report {
 	rep.Rule = "random segment programs: lists of text (bytes incl. \\ < % quotes, multi-byte runes, invalid UTF-8, the escapes \\<% and \\\\ before a tag), " +
 		"output tags (string literals in both quote styles with newlines, %>, <%, #, backslashes, \\\" and runes; ints; variables; raw(); +; parentheses), " +
 		"silent tags (literals, raw()/Go helpers returning template.HTML or string, variables, arithmetic, array/hash literals, let, assignment, inline if/for, fn literal), " +
-		"comments, and blocks nested to depth 2 (quick) / 3 (thorough): <%= if/else/else-if, for (2 rounds), fn (called once/twice), block helper, and their silent <% %> forms; " +
+		"comments, and blocks nested to depth 2 (quick) / 3 (thorough): <%= if/else/else-if, fn (called once/twice), block helper, and their silent <% %> forms; " +
+		"for loops (output and code-tag form, (v) and (k, v) heads) over array literals of ints/strings, Go slices/arrays/pointer-to-slice and one-entry maps from the context, hash literals, " +
+		"range/between/until, application-defined Iterators, 0..3 iterations, plus a 3-entry Go map whose body ignores key and value; loop bodies read the loop variables, hold if-blocks " +
+		"testing them (==, !=, with/without else) and break/continue (bare, or as <% if (v == x) { break } %>) directly or inside <%= if %> blocks, with text/tags before and after them; " +
+		"the expected output is computed per iteration: what precedes an executed break/continue in its iteration counts, what follows does not; " +
 		"random tag padding; expected output = concatenation of each segment's contribution (text via the escape reference, merged over adjacent texts); " +
 		"plus long random texts mixing the escape forms with simple tags; every program is valid by construction; non-trivial = has a tag; distinct by template text"
 	rep.Notes = append(rep.Notes,
@@ -1003,6 +1339,8 @@ func c02SegStream(cfg Config) *Report {
 		"variables are read only in the scope list that declared them or in blocks nested inside it; assignments only target variables of the same list (scoping is another property)",
 		"double-quoted literals never end in a backslash (\\\" would be read as a quote); everything else, including adjacent \\\"\\\", is generated",
 		"a Render error on these valid programs is reported as wrong-error",
+		"break/continue are never put inside a code-tag if that also holds text or output tags (<% if (c) { %>text<% break %><% } %>): plush emits that text although the property says a code-tag if contributes nothing (upstream pins it in Test_Render_For_Array_Break_String); left open, not checked",
+		"break/continue are only generated where a loop is reached through <%= if %> blocks (not through fn/helper blocks); maps with several entries are only looped over with bodies that ignore key and value (iteration order is not fixed)",
 		"failing programs are shrunk (nodes removed, blocks turned into <%= if (true) { %>, texts and literal contents shortened); the family id is the shape of the shrunk program")
 
 	fail := func(caseText, problem, what, site string) {
@@ -1042,7 +1380,7 @@ func c02SegStream(cfg Config) *Report {
 
 	for i := 0; i < cfg.N(40000, 500000) && !rep.Full(); i++ {
 		g := &c02Gen{r: r, maxD: maxD}
-		root := g.list(r.Range(1, 6), 0, nil, 0, false)
+		root := g.list(r.Range(1, 6), 0, nil, 0, c02LC{})
 		tmpl, want, ok := c02Eval(root, false)
 		if !ok {
 			rep.Tag("regenerated-text-would-capture-tag")
